@@ -165,7 +165,7 @@ def cases(draw: Any) -> Dict[str, Any]:
         kind = draw(st.sampled_from(["T", "X", "R"]))
         deps = gen.deps_of(P)
         if kind == "R":
-            roots = [s["site"] for s in P["body"] if not s["mark"]]
+            roots = gen.true_roots(P)
             if roots:
                 case["sel"] = {"R": draw(st.lists(st.sampled_from(roots), min_size=1, max_size=len(roots), unique=True))}
             else:
